@@ -47,17 +47,15 @@ def run_sequence(rebound, sp):
         if integ == "whfast":
             w = sim.ri_whfast
             w.coordinates = COORD_PY[coord]
-            for k in ("safe_mode", "keep_unsynchronized", "corrector", "corrector2"):
-                if k in opts:
-                    setattr(w, k, opts[k])
-            if "kernel" in opts:
-                w.kernel = opts["kernel"]
+            for k, dflt in (("safe_mode", 1), ("keep_unsynchronized", 0), ("corrector", 0), ("corrector2", 0)):
+                setattr(w, k, opts.get(k, dflt))
+            w.kernel = opts.get("kernel", "default")
         elif integ == "saba":
+            sim.ri_whfast.coordinates = "jacobi"      # SABA requires it (and says so)
             if "type" in opts:
                 sim.ri_saba.type = opts["type"]
-            for k in ("safe_mode", "keep_unsynchronized"):
-                if k in opts:
-                    setattr(sim.ri_saba, k, opts[k])
+            for k, dflt in (("safe_mode", 1), ("keep_unsynchronized", 0)):
+                setattr(sim.ri_saba, k, opts.get(k, dflt))
         elif integ == "mercurius":
             for k in ("safe_mode", "r_crit_hill"):
                 if k in opts:
@@ -113,11 +111,18 @@ def run_sequence(rebound, sp):
 
     cps = []
     el = 0.0
+    path = 0.0          # sum of |dt| over the steps taken since the last check point (rounding grows with it, not with the net time)
+    tmode = 0
     for act in sp["actions"]:
         kind = act[0]
+        if integ == "trace" and sim.steps_done > 0:
+            tmode |= int(sim.ri_trace._current_C) + (2 if int(sim.ri_trace._encounter_N) > 1 else 0)
+        if integ == "mercurius" and sim.steps_done > 0 and int(sim.ri_mercurius._encounter_N) > 1:
+            tmode |= 2
         if kind == "steps":
             clib.reb_simulation_steps(ctypes.byref(sim), ctypes.c_uint(act[1]))
             el += act[1] * sim.dt
+            path += abs(act[1] * sim.dt)
         elif kind == "integrate":
             target = sim.t + act[1] * sim.dt          # amount in units of the current step (sign included)
             sd0, dt0 = sim.steps_done, sim.dt
@@ -129,6 +134,7 @@ def run_sequence(rebound, sp):
             ns = sim.steps_done - sd0
             if ns > 0:
                 el += (ns - 1) * dt0 + (sim.dt_last_done if eft != 0 else dt0)
+                path += abs((ns - 1) * dt0) + abs(sim.dt_last_done if eft != 0 else dt0)
         elif kind == "sync":
             sim.synchronize()
         elif kind == "restore":
@@ -158,7 +164,7 @@ def run_sequence(rebound, sp):
             sim.dt = sim.dt * act[1]
         elif kind == "edit":
             sim.synchronize()
-            cps.append({"el": el, "rel": rel(sim), "var": varstate(sim)})
+            cps.append({"el": el, "path": path, "rel": rel(sim), "var": varstate(sim)})
             p = sim.particles[1]
             p.vx += act[1][0]; p.vy += act[1][1]; p.vz += act[1][2]
             # what the documentation asks of a user who edits particles with safe_mode=0
@@ -166,10 +172,14 @@ def run_sequence(rebound, sp):
             sim.ri_mercurius.recalculate_coordinates_this_timestep = 1
             cps.append({"el": None, "rel": rel(sim), "var": varstate(sim)})     # new start
             el = 0.0
+            path = 0.0
     sim.synchronize()
-    cps.append({"el": el, "rel": rel(sim), "var": varstate(sim)})
-    mode = (int(sim.ri_trace._current_C) + (2 if int(sim.ri_trace._encounter_N) > 1 else 0)) if integ == "trace" else 0
-    return {"cps": cps, "t": sim.t, "mode": mode}
+    cps.append({"el": el, "path": path, "rel": rel(sim), "var": varstate(sim)})
+    if integ == "trace":
+        tmode |= int(sim.ri_trace._current_C) + (2 if int(sim.ri_trace._encounter_N) > 1 else 0)
+    if integ == "mercurius" and int(sim.ri_mercurius._encounter_N) > 1:
+        tmode |= 2
+    return {"cps": cps, "t": sim.t, "mode": tmode, "gravity": str(sim.gravity), "final": [integ, coord, opts.get("kernel", "default")]}
 
 
 def worker(scratch):
@@ -309,6 +319,8 @@ def worker(scratch):
                 a, b = getp(p0), getp(p1)
                 # TRACE: 1 = pericentre switch fired, 2 = a planet-planet/star encounter was integrated with BS
                 mode = (int(sim.ri_trace._current_C) + (2 if int(sim.ri_trace._encounter_N) > 1 else 0)) if integ == "trace" else 0
+                if integ == "mercurius" and int(sim.ri_mercurius._encounter_N) > 1:
+                    mode = 2        # MERCURIUS handed the body to IAS15 (its dcrit has a v*dt term): not the Kepler path
                 res = " ".join(d2h(b[i] - a[i]) for i in range(6)) + " " + d2h(sim.t) + " %d" % mode
                 sim = None
             else:
@@ -613,13 +625,18 @@ def gen_sequence(rng, idx):
         tags.add("time:step_longer_than_period")
     if e > 1:
         tags.add("geometry:hyperbolic")
-    if rng.chance(0.15):
+    if rng.chance(0.2) and integ in ("whfast", "saba"):
+        # (MERCURIUS / TRACE: any encounter sub-integration works with absolute times, error ~ eps |t|/dt - measured 2e-4)
         sp["t0"] = dt * 1e12 * rng.choice([1, -1])
         tags.add("time:huge_t_over_dt")
-    if rng.chance(0.3):
+    if rng.chance(0.3) and opts.get("keep_unsynchronized") != 1:
+        # (pre/post_timestep_modifications force a synchronize + recalculate every step; with keep_unsynchronized=1
+        #  REBOUND warns "recalculating coordinates but pos/vel were not synchronized" and the run is wrong by design)
         sp["callbacks"] = True
         tags.add("callbacks:heartbeat_pre_post_additional_forces")
-    if integ == "whfast" and coord == "jacobi" and role != "tp1" and rng.chance(0.5) and "kernel" not in opts:
+    # (variations next to a test particle with N_active=1: C16's known finding F24 - the pair (1,0) enters the
+    #  variational acceleration although the Kepler step handles it; only all-active systems here)
+    if integ == "whfast" and coord == "jacobi" and role == "active" and "kernel" not in opts:
         sp["var"] = [rng.normal() * sx for _ in range(3)] + [rng.normal() * sv for _ in range(3)]
         tags.add("variational:nonzero_variation_riding_along")
     acts = sp["actions"]
@@ -656,9 +673,12 @@ def gen_sequence(rng, idx):
                 else:
                     if "var" in sp:
                         o2.pop("kernel", None); o2.pop("corrector2", None)
+                    if sp.get("callbacks") and o2.get("keep_unsynchronized") == 1:
+                        o2["keep_unsynchronized"] = 0
+                        t2.discard("option:keep_unsynchronized")
                     acts.append(["switch", i2, c2, bool(rng.randint(0, 1)), o2])
                     tags.add("history:integrator_switch"); tags |= t2
-                    integ, coord = i2, c2
+                    integ, coord, opts = i2, c2, o2
         elif h == 3 and integ != "trace":
             acts.append(["setdt", -1.0]); tags.add("time:direction_reversal")
         elif h == 4:
@@ -1307,7 +1327,7 @@ def run_(c):
             c.violation("step-%s:%s" % (ans.split()[0].lower() if ans else "noanswer", name),
                         "one %s step of a two-body system: %s (e=%.6g dt/P=%.4g)" % (name, ans[:80], o["meta"]["e"], o["meta"]["dtP"]), rep)
             continue
-        if integ == "trace" and t[7] != "0":
+        if integ in ("trace", "mercurius") and t[7] != "0":
             skipped_trace += 1          # pericentre switch fired: not the Kepler solver (not "away from encounters")
             continue
         j = sref[str(k)]
@@ -1369,8 +1389,8 @@ def run_(c):
                         "a two-body history with %s (%s): %s" % (cfg, ", ".join(sorted(tags))[:200], ans[:120]), rep0)
             continue
         R = json.loads(ans[2:])
-        if sp["integ"] == "trace" and R["mode"] != 0:
-            continue
+        if R["mode"] != 0:
+            continue                       # a TRACE pericentre switch / encounter fired somewhere: not the Kepler path
         for tg in tags | {"integrator:" + cfg, "option:G_not_1"}:
             dims[tg] = dims.get(tg, 0) + 1
         c.count(("seq", cfg, tuple(sorted(tags))))
@@ -1388,13 +1408,13 @@ def run_(c):
                 if vstart is not None and cp["var"] is not None and b == 0:
                     l += " " + " ".join(d2h(v) for v in vstart) + " " + " ".join(d2h(v) for v in cp["var"])
                 qol.append(l)
-                qmeta[cid] = (i, seg, b)
+                qmeta[cid] = (i, seg, b, cp.get("path", abs(cp["el"])))
             start, vstart = cp["rel"], cp["var"]
             seg += 1
     qref = run_oracle(qol)
     qworst = {}
     tworst2 = 0.0
-    for cid, (i, seg, b) in qmeta.items():
+    for cid, (i, seg, b, pathlen) in qmeta.items():
         sp, tags, GM, o, offk = specs[i]
         j = qref.get(cid)
         cfg = sp["integ"] + ("/" + sp["coord"] if sp["coord"] != "-" else "")
@@ -1409,8 +1429,13 @@ def run_(c):
         if j["kind"] == "hyp" and j["hyp_s"] > 100.0:
             continue                                   # F14 domain
         e_ = j["e"]
-        J = (4.0 / abs(1.0 - e_) if e_ != 1.0 else float("inf")) * j["ndt"] * max(1.0, j["amp_x"], j["amp_v"])
-        unit = tolerance(j) * (1.0 + J) * (1.0 + 2.0 * offk)
+        # rounding accumulates along the path actually travelled (forward and back), not the net time
+        jj = dict(j)
+        a_ = abs(j["a"])
+        ndt_path = math.sqrt(GM / a_ ** 3) * pathlen if (a_ > 0 and a_ == a_ and GM > 0) else j["ndt"]
+        jj["ndt"] = max(j["ndt"], ndt_path)
+        J = (4.0 / abs(1.0 - e_) if e_ != 1.0 else float("inf")) * jj["ndt"] * max(1.0, j["amp_x"], j["amp_v"])
+        unit = tolerance(jj) * (1.0 + J) * (1.0 + 2.0 * offk)
         err = max(j["errx"], j["errv"])
         ratio = err / unit
         if ratio > qworst.get(cfg, (0,))[0]:
@@ -1418,10 +1443,19 @@ def run_(c):
         if err > unit * SAFETY * 16:
             seq_fail += 1
             rep.update(err=err, allowed=unit * SAFETY * 16, got=None, reference=[h2d(x) for x in j["ref"]])
+            Rj = json.loads(qro[str(i)][2:])
+            fin = Rj.get("final", ["", "", ""])
+            g_ = Rj.get("gravity")
+            if (any(a[0] == "switch" for a in sp["actions"]) and fin[0] in ("whfast", "saba") and fin[2] == "default"
+                    and (g_ in ("trace", "mercurius") or (g_ == "jacobi" and fin[0] == "whfast" and fin[1] != "jacobi"))):
+                c.violation("FC03a:whfast-keeps-previous-integrators-gravity-routine",
+                            "integrator switched to %s on a simulation stepped with %s before: r->gravity stays '%s' and the two-body orbit is off by %.3g relative"
+                            % ("/".join(fin[:2]), sp["integ"], g_, err), rep)
+                continue
             c.violation("history-inexact:" + cfg, "a two-body history with %s (%s) leaves the exact Kepler orbit by %.3g relative (allowed %.3g), e=%.6g"
                         % (cfg, ", ".join(sorted(tags))[:240], err, unit * SAFETY * 16, e_), rep)
-        if "terrx" in j:
-            tunit = unit * (1 + j["ndt"])
+        if "terrx" in j and SAFETY * 16 * unit * (1 + jj["ndt"]) < 1e-6:      # (beyond that the tangent is too ill-conditioned to say anything)
+            tunit = unit * (1 + jj["ndt"])
             terr = max(j["terrx"], j["terrv"])
             tworst2 = max(tworst2, terr / tunit)
             if terr > SAFETY * 16 * tunit:
